@@ -379,6 +379,35 @@ Lemma form_chans_subst old new f k :
   In k (form_chans (subst old new f)) -> In k (form_chans f) \/ In k (name_chans new).
 Proof. apply form_chans_subst_mut. Qed.
 
+(* ------------------------------------------------------------------ the core fragment: no drop, no split, no droppable forward *)
+Fixpoint core_form (f : form) : bool :=
+  match f with
+  | FRecv _ _ _ k | FWait _ k | FShift _ _ k | FPrint _ k => core_form k
+  | FCase _ bs => core_brs bs
+  | FNew _ b k => core_form b && core_form k
+  | FFwd _ _ d => negb d
+  | FSplit _ _ _ _ | FDrop _ _ => false
+  | _ => true
+  end
+with core_brs (b : branches) : bool :=
+  match b with BrNil => true | BrCons _ _ k r => core_form k && core_brs r end.
+
+Lemma core_subst_mut old new :
+  (forall f, core_form (subst old new f) = core_form f) /\ (forall b, core_brs (subst_brs old new b) = core_brs b).
+Proof.
+  apply form_branches_ind; simpl; intros; auto;
+    repeat match goal with |- context [if ?c then _ else _] => destruct c end; congruence.
+Qed.
+Lemma core_subst old new f : core_form (subst old new f) = core_form f.
+Proof. apply core_subst_mut. Qed.
+
+Lemma core_find l bs pay K : find_branch l bs = Some (pay, K) -> core_brs bs = true -> core_form K = true.
+Proof.
+  induction bs as [|l' p' k' r IH]; simpl; [discriminate|]. rewrite andb_true_iff. destruct (String.eqb l' l).
+  - intros [= -> ->]. tauto.
+  - intros H [_ H']. auto.
+Qed.
+
 (* the channels among the keys *)
 Definition kcs (l : list key) : list cid := flat_map (fun q => match q with KC k => [k] | KV _ => [] end) l.
 Lemma kcs_app l1 l2 : kcs (l1 ++ l2) = kcs l1 ++ kcs l2.
